@@ -1527,6 +1527,60 @@ example : fileTermOrdOrNext (fun _ => none) id (openFile (finishFile (frameBlock
     fileTermOrdOrNext (fun _ => none) id (openFile (finishFile (frameBlocks []) (u64enc 0) 0 3)) [7]
       = some (.next 0) := by decide
 
+/-- instance for the real monotonic-u64 codec: payload = `serU64Mono values ++ front-coded keys`,
+`skip`/`vals` = the two halves of `loadU64Mono`. `get` on the bytes of the written file is the
+specification, for every sorted map whose values are non-decreasing inside each block. -/
+theorem C15_u64_file_get (blockLen : Nat) (m : Assoc Nat) (hs : SortedMap m)
+    (hmono : ∀ b ∈ (build blockLen m).blocks, MonoFrom 0 (b.entries.map (·.2)))
+    (f : FstIndex) (hf : FstContract f) (hkeys : f.keys = (build blockLen m).blocks.map (·.sep))
+    (hmulti : (build blockLen m).single = false)
+    (hsize : ∀ b ∈ (build blockLen m).blocks,
+      (serU64Mono (b.entries.map (·.2)) ++ encodeBlockKeys (keys b.entries)).length + 1 < 4294967296)
+    (hok : WriterStoreOk (frameAddrs (keyBlocks (build blockLen m))
+      ((build blockLen m).blocks.map (fun b => serU64Mono (b.entries.map (·.2)) ++ encodeBlockKeys (keys b.entries)))))
+    (fst : List UInt8) (numTerms version : Nat)
+    (hfst0 : fst.length ≠ 0) (hfst : fst.length < 18446744073709551616)
+    (hdata : (frameBlocks ((build blockLen m).blocks.map
+      (fun b => serU64Mono (b.entries.map (·.2)) ++ encodeBlockKeys (keys b.entries)))).length < 18446744073709551616)
+    (hn : numTerms < 18446744073709551616) (hv : version < 4294967296) (k : Key) :
+    fileGet f.geFirst (fun p => (loadU64Mono p).2) (fun p => (loadU64Mono p).1)
+        (openFile (finishFile (frameBlocks ((build blockLen m).blocks.map
+            (fun b => serU64Mono (b.entries.map (·.2)) ++ encodeBlockKeys (keys b.entries))))
+          (fst ++ storeBytes (writerStore (frameAddrs (keyBlocks (build blockLen m))
+            ((build blockLen m).blocks.map
+              (fun b => serU64Mono (b.entries.map (·.2)) ++ encodeBlockKeys (keys b.entries))))) ++ u64enc fst.length)
+          numTerms version)) k
+      = some (SSTable.get m k) := by
+  have hent : ∀ b ∈ (build blockLen m).blocks, b.entries ≠ [] := by
+    intro b hb
+    have hmem : b.entries ∈ (build blockLen m).blocks.map (·.entries) := List.mem_map.mpr ⟨b, hb, rfl⟩
+    rw [build_blocks_eq, mkBlocks_entries] at hmem
+    exact cutBlocks_nonempty _ blockLen [] 0 [] m _ hmem
+  apply C15_file_get blockLen m hs f hf hkeys hmulti _ _ _ (by simp) ?_ ?_ hok fst numTerms version
+    hfst0 hfst hdata hn hv k
+  · intro i p b hp hb
+    rw [List.getElem?_map, hb] at hp
+    simp only [Option.map_some, Option.some.injEq] at hp
+    subst hp
+    exact C15_file_get_u64_payload _ _ (hmono b (List.mem_of_getElem? hb))
+  · intro p hp
+    obtain ⟨b, hb, rfl⟩ := List.mem_map.mp hp
+    refine ⟨?_, hsize b hb⟩
+    intro e
+    have hk := encodeEntries_length_ge [] (keys b.entries)
+    have hl : (serU64Mono (b.entries.map (·.2)) ++ encodeBlockKeys (keys b.entries)).length = 0 := by rw [e]; rfl
+    unfold encodeBlockKeys at hl
+    rw [List.length_append] at hl
+    have : (keys b.entries).length = 0 := by omega
+    have : b.entries.length = 0 := by simpa [keys] using this
+    exact hent b hb (List.eq_nil_of_length_eq_zero this)
+
+example : MonoFrom 0 [3, 3, 10] ∧
+    (loadU64Mono (serU64Mono [3, 3, 10] ++ encodeBlockKeys [[1], [2], [3]])).1 = [3, 3, 10] ∧
+    (loadU64Mono (serU64Mono [3, 3, 10] ++ encodeBlockKeys [[1], [2], [3]])).2 = encodeBlockKeys [[1], [2], [3]] :=
+  ⟨by simp [MonoFrom], (C15_file_get_u64_payload _ _ (by simp [MonoFrom])).2,
+   (C15_file_get_u64_payload _ _ (by simp [MonoFrom])).1⟩
+
 /-! ## non-vacuity -/
 
 example : StrictInc [[], [0], [0, 0], [0, 255], [1], [255, 255]] :=
